@@ -209,10 +209,10 @@ Lemma C16_example_holds :
 Proof.
   cbv zeta. split; [|split; [|split]].
   - split; [apply wf_gridb_spec; vm_compute; reflexivity|]. split; [|split; [vm_compute; reflexivity|]].
-    + repeat constructor; vm_compute; intuition discriminate.
+    + apply Forall_forall. cbn [sgrid concat app]. intros o [<-|[<-|[<-|[<-|[]]]]]; vm_compute; intuition discriminate.
     + vm_compute; intuition discriminate.
   - split; [apply wf_gridb_spec; vm_compute; reflexivity|]. split; [|split; [vm_compute; reflexivity|]].
-    + repeat constructor; vm_compute; intuition discriminate.
+    + apply Forall_forall. cbn [sgrid concat app]. intros o [<-|[<-|[<-|[<-|[]]]]]; vm_compute; intuition discriminate.
     + vm_compute; intuition discriminate.
   - vm_compute. reflexivity.
   - intros k; destruct k; vm_compute; discriminate.
